@@ -29,6 +29,19 @@ pub enum JoinType {
 
 pub type JoinKeys = SmallVec<[DataValue; 2]>;
 
+/// Brings a join key to the form in which the keys of the two sides are compared.
+///
+/// The binder accepts `l = r` between integers of different widths and leaves both sides as
+/// they are; key values are hashed and compared as `DataValue`s, for which `Int32(1)` and
+/// `Int64(1)` differ. All integer keys are widened to `Int64`.
+pub(super) fn join_key(value: DataValue) -> DataValue {
+    match value {
+        DataValue::Int16(v) => DataValue::Int64(v as i64),
+        DataValue::Int32(v) => DataValue::Int64(v as i64),
+        v => v,
+    }
+}
+
 /// Returns true if any of the join keys is NULL.
 fn has_null(keys: &JoinKeys) -> bool {
     keys.iter().any(|key| key.is_null())
@@ -49,7 +62,7 @@ impl<const T: JoinType> HashJoinExecutor<T> {
             let chunk = chunk?;
             let keys_chunk = Evaluator::new(&self.left_keys).eval_list(&chunk)?;
             for (row, keys) in chunk.rows().zip(keys_chunk.rows()) {
-                let keys = keys.values().collect();
+                let keys = keys.values().map(join_key).collect();
                 hash_map.entry(keys).or_default().rows.push(row.to_owned());
             }
             tokio::task::consume_budget().await;
@@ -64,7 +77,7 @@ impl<const T: JoinType> HashJoinExecutor<T> {
             let chunk = chunk?;
             let keys_chunk = Evaluator::new(&self.right_keys).eval_list(&chunk)?;
             for (right_row, keys) in chunk.rows().zip(keys_chunk.rows()) {
-                let keys = keys.values().collect::<JoinKeys>();
+                let keys = keys.values().map(join_key).collect::<JoinKeys>();
                 // NULL is not equal to anything, not even to NULL: such a row has no match.
                 let matched = match has_null(&keys) {
                     true => None,
@@ -131,7 +144,7 @@ impl HashSemiJoinExecutor {
             let chunk = chunk?;
             let keys_chunk = Evaluator::new(&self.right_keys).eval_list(&chunk)?;
             for row in keys_chunk.rows() {
-                let keys = row.values().collect::<JoinKeys>();
+                let keys = row.values().map(join_key).collect::<JoinKeys>();
                 // a NULL key never matches
                 if !has_null(&keys) {
                     key_set.insert(keys);
@@ -146,7 +159,9 @@ impl HashSemiJoinExecutor {
             let keys_chunk = Evaluator::new(&self.left_keys).eval_list(&chunk)?;
             let exists = keys_chunk
                 .rows()
-                .map(|key| key_set.contains(&key.values().collect::<JoinKeys>()) ^ self.anti)
+                .map(|key| {
+                    key_set.contains(&key.values().map(join_key).collect::<JoinKeys>()) ^ self.anti
+                })
                 .collect::<Vec<bool>>();
             yield chunk.filter(&exists);
         }
@@ -173,7 +188,7 @@ impl HashSemiJoinExecutor2 {
             let chunk = chunk?;
             let keys_chunk = Evaluator::new(&self.right_keys).eval_list(&chunk)?;
             for (key, row) in keys_chunk.rows().zip(chunk.rows()) {
-                let keys = key.values().collect::<JoinKeys>();
+                let keys = key.values().map(join_key).collect::<JoinKeys>();
                 // a NULL key never matches
                 if has_null(&keys) {
                     continue;
@@ -197,7 +212,9 @@ impl HashSemiJoinExecutor2 {
             let keys_chunk = Evaluator::new(&self.left_keys).eval_list(&chunk)?;
             let mut exists = Vec::with_capacity(chunk.cardinality());
             for (key, lrow) in keys_chunk.rows().zip(chunk.rows()) {
-                let b = if let Some(rchunk) = key_set.get(&key.values().collect::<JoinKeys>()) {
+                let b = if let Some(rchunk) =
+                    key_set.get(&key.values().map(join_key).collect::<JoinKeys>())
+                {
                     let lchunk = self.left_row_to_chunk(&lrow, rchunk.cardinality());
                     let join_chunk = lchunk.row_concat(rchunk.clone());
                     let ArrayImpl::Bool(a) = Evaluator::new(&self.condition).eval(&join_chunk)?
